@@ -77,7 +77,9 @@ package paillier
 //@   panics_iff[C12] abs(natval(m)) > natval(pk.nNat) / 2
 //@   modifies nothing
 //@   allocates
-//@   ensures result0 != nil && fresh(result0) && fresh(result0.c) && result1 != nil
+//@   ensures result0 != nil && fresh(result0) && fresh(result0.c) && result1 != nil && fresh(result1) && result1 != result0.c
+//@   use sq
+//@   ensures[C12] natval(result0.c) == (modexp(natval(pk.nPlusOne), natval(m), natval(pk.nNat) * natval(pk.nNat)) * modexp(natval(result1), natval(pk.nNat), natval(pk.nNat) * natval(pk.nNat))) % (natval(pk.nNat) * natval(pk.nNat))
 
 //@ func (*PublicKey).N
 //@   nopanic[C05]
@@ -107,11 +109,20 @@ package paillier
 //@   allocates
 //@   requires pkvok(pk) && pkok(other)
 
+// Homomorphic operations (C12) at the level of ciphertext values: ct (+) ct2 is the product mod N^2, k (.) ct the k-th
+// power mod N^2 (signed exponent). With the ciphertext value of EncWithNonce - (N+1)^m * nonce^N mod N^2 - these are the
+// textbook operations; that they add / scale the plaintexts is the algebra of lemma c12_homomorphic (lemmas/).
+// pmul(x, y, m) names (x*y) mod m: callers that merely combine ciphertexts carry no nonlinear term (cf. sq)
+//@ spec fn pmul(Int, Int, Int) Int
+//@ rawaxiom[pmul] (forall ((x Int) (y Int) (m Int)) (! (= (pmul x y m) (mod (* x y) m)) :pattern ((pmul x y m))))
 //@ func (*Ciphertext).Add
+//@   use pmul
 //@   nopanic[C05]
 //@   modifies natval(ct.c)
 //@   requires ct != nil && pkok(pk)
 //@   ensures result == ct
+//@   ensures[C12] ct2 != nil ==> natval(ct.c) == pmul(old(natval(ct.c)), old(natval(ct2.c)), natval(pk.nSquared.Modulus))
+//@   ensures[C12] ct2 == nil ==> natval(ct.c) == old(natval(ct.c))
 
 //@ func (*Ciphertext).Mul
 //@   nopanic[C05]
@@ -119,6 +130,8 @@ package paillier
 //@   allocates
 //@   requires ct != nil && pkok(pk)
 //@   ensures result == ct && (ct.c == old(ct.c) || fresh(ct.c))
+//@   ensures[C12] k != nil ==> natval(ct.c) == modexp(old(natval(ct.c)), natval(k), natval(pk.nSquared.Modulus))
+//@   ensures[C12] k == nil ==> (ct.c == old(ct.c) && natval(ct.c) == old(natval(ct.c)))
 
 //@ func (*Ciphertext).Randomize
 //@   nopanic[C05]
@@ -137,6 +150,7 @@ package paillier
 //@   allocates
 //@   requires ct.c != nil
 //@   ensures result != nil && fresh(result) && fresh(result.c)
+//@   ensures[C12] natval(result.c) == natval(ct.c)
 
 //@ func (*Ciphertext).WriteTo
 //@   nopanic[C05]
